@@ -6,7 +6,7 @@
    replays/C12/corpus/F12-*.json produce the same datagram lengths on the
    pinned tree). *)
 From Coq Require Import ZArith List Bool Lia.
-From Tally Require Import Base.Obs Gen.Params Model.Varint Model.Thrift Model.M3Batch
+From Tally Require Import Base.ObsCore Gen.Params Model.Varint Model.Thrift Model.M3Batch
   Proof.VarintP Proof.ThriftP Proof.M3BatchP.
 Import ListNotations.
 Open Scope Z_scope.
